@@ -62,6 +62,7 @@ type plan struct {
 	order  []int
 	cases  []caseT
 	chunks [][]int
+	ntlc   int // cases enumerated by TLC (the rest of cases are the cooperating-field combinations)
 }
 
 func loadPlan(path string) *plan {
@@ -106,7 +107,67 @@ func loadPlan(path string) *plan {
 			p.chunks = append(p.chunks, c.Sizes)
 		}
 	}
+	p.ntlc = len(p.cases)
+	p.overclaims()
 	return p
+}
+
+// overclaims adds the cases in which several length fields agree with each other but not with the file: one record
+// claims capture length = original length = V far beyond the bytes present, under every declaration of the snap
+// length (unchanged, 0, 1, 0xffffffff).  A reader that bounds its allocation by "caplen <= snaplen" or by
+// "caplen <= len" alone is only exposed when the fields cooperate.
+func (p *plan) overclaims() {
+	pairs := map[string]string{"rec.caplen": "rec.len", "epb.caplen": "epb.len", "srec.incllen": "srec.origlen"}
+	for _, id := range p.order {
+		b := p.bases[id]
+		var snaps, caps, lens [][]interface{}
+		for _, fd := range b.Fields {
+			n := fd[0].(string)
+			switch {
+			case n == "pcap.snaplen" || n == "idb.snaplen":
+				snaps = append(snaps, fd)
+			case pairs[n] != "":
+				caps = append(caps, fd)
+			case n == "rec.len" || n == "epb.len" || n == "srec.origlen":
+				lens = append(lens, fd)
+			}
+		}
+		put := func(f []byte, fd []interface{}, v uint32) {
+			off, w := int(fd[1].(float64)), int(fd[2].(float64))
+			for k := 0; k < w && off+k < len(f); k++ {
+				sh := uint(8 * k)
+				if b.Scen.Fmt == "snoop" {
+					sh = uint(8 * (w - 1 - k))
+				}
+				f[off+k] = byte(v >> sh)
+			}
+		}
+		for ri := range caps {
+			if ri >= len(lens) {
+				break
+			}
+			for _, snap := range []int64{-1, 0, 1, 0xffffffff} {
+				if snap >= 0 && len(snaps) == 0 {
+					continue
+				}
+				for _, v := range []uint32{65536, 0x01000000, 0x7fffffff, 0xffffffff} {
+					f := append([]byte(nil), b.file...)
+					loc := caps[ri][0].(string) + "+" + lens[ri][0].(string)
+					cls := fmt.Sprintf("claim=%x", v)
+					if snap >= 0 {
+						for _, sf := range snaps {
+							put(f, sf, uint32(snap))
+						}
+						loc = snaps[0][0].(string) + "+" + loc
+						cls = fmt.Sprintf("snap=%x,", snap) + cls
+					}
+					put(f, caps[ri], v)
+					put(f, lens[ri], v)
+					p.cases = append(p.cases, caseT{Base: id, Loc: loc, Cls: fmt.Sprintf("%s,rec=%d", cls, ri), Off: int(caps[ri][1].(float64)), Src: "combo", file: f})
+				}
+			}
+		}
+	}
 }
 
 // fieldAt names the field of the layout map that contains offset off ("data" when none does)
@@ -209,6 +270,9 @@ func (p *plan) randomCase(seed uint64, j int) caseT {
 func (p *plan) caseAt(i int, seed uint64) caseT {
 	if i < len(p.cases) {
 		c := p.cases[i]
+		if c.file != nil { // precomputed (several fields changed together)
+			return c
+		}
 		b := p.bases[c.Base]
 		f := append([]byte(nil), b.file...)
 		for k, v := range c.Bytes {
@@ -438,7 +502,7 @@ func runStream(ci int, format, rdm, shName string, src io.Reader, perCall bool) 
 
 // random corruptions carry the corrupted file itself (TLC cases are reproducible from base, offset and bytes)
 func caseHex(c *caseT) string {
-	if c.Src == "rand" {
+	if c.Src != "tlc" {
 		return hex.EncodeToString(c.file)
 	}
 	return ""
@@ -860,6 +924,6 @@ func mainHostile(in, out string, nrand int, seed uint64, workers, nchk, ninj int
 		tr.EmitBlock(crashes[w])
 	}
 	tr.Close()
-	o, _ := json.Marshal(vh.M{"cases": total, "tlc_cases": len(p.cases), "events": tr.N, "crashes": stats.crashes, "recycles": stats.recycles, "restarts": stats.restarts, "chunkings": len(p.chunks)})
+	o, _ := json.Marshal(vh.M{"cases": total, "tlc_cases": p.ntlc, "combo_cases": len(p.cases) - p.ntlc, "events": tr.N, "crashes": stats.crashes, "recycles": stats.recycles, "restarts": stats.restarts, "chunkings": len(p.chunks)})
 	os.Stdout.Write(append(o, '\n'))
 }
